@@ -406,6 +406,9 @@ def r6_accessors(c, facts):
 
 
 def run(c, facts):
+    import c10
+    R7 = c.rule('C08.R7', 'JOIN-AGREE: a qualified identifier binds into the module that was loaded for its import (shared with C10.R5)')
+    c.shared(R7, c10.r5_join_agree, 'C10.R5', facts)
     c.run(r6_accessors, facts)
     c.run(r1_innermost, facts)
     c.run(r2_pairing, facts)
